@@ -2374,3 +2374,55 @@ def r_rest(E):
                     c.lineno, fn.name))
     res.floor = 2
     return res
+
+
+# ---------------------------------------------------------------------------------------------- R-HOURNOISE
+@rule("R-HOURNOISE")
+def r_hournoise(E):
+    pm = E.pm
+    res = RuleResult("R-HOURNOISE", "in model code a whole number of hours is never taken (math.ceil / math.floor / int / //) "
+                                    "straight from the float of a unit conversion or of a sum of converted durations: "
+                                    "3 600 000 ms is 1.0000000000000002 h and six times ten minutes is 0.9999999999999999 h, "
+                                    "so the ceiling / floor jumps by one at exact boundaries and depends on the unit the "
+                                    "input was typed in; the noise is absorbed first (round(x, n), timedelta) — unless the "
+                                    "part cut off is used as well (x - floor(x)), which makes the result continuous")
+    from ..astutil import fully_expanded
+    scanned = 0
+    for mod, (rel, tree, src) in sorted(pm.modules.items()):
+        if not (rel.startswith("efootprint/core") or rel.startswith("efootprint/abstract_modeling_classes")
+                or rel.startswith("efootprint/builders/services") or rel.startswith("efootprint/builders/hardware")):
+            continue
+        for fn in [n for n in ast.walk(tree) if isinstance(n, ast.FunctionDef)]:
+            scanned += 1
+            for c in [x for x in ast.walk(fn) if isinstance(x, ast.Call)]:
+                f = norm(c.func)
+                if f not in ("math.ceil", "math.floor", "int", "np.ceil", "np.floor", "math.trunc") or not c.args:
+                    continue
+                t = norm(fully_expanded(c.args[0], fn))
+                if not _converted_duration(t):
+                    continue
+                res.instances += 1
+                absorbed = "round(" in t or "timedelta(" in t
+                # continuous use: the remainder `x - floor(x)` is used in the same function
+                par = getattr(c, "_parent", None)
+                names = {tg.id for tg in par.targets if isinstance(tg, ast.Name)} if isinstance(par, ast.Assign) and par.value is c else set()
+                rest_used = any(isinstance(b, ast.BinOp) and isinstance(b.op, ast.Sub)
+                                and (b.right is c or (isinstance(b.right, ast.Name) and b.right.id in names))
+                                and norm(fully_expanded(b.left, fn)) == t for b in ast.walk(fn))
+                cls = getattr(fn, "_parent", None)
+                q = f"{cls.name}.{fn.name}" if isinstance(cls, ast.ClassDef) else fn.name
+                if absorbed or rest_used:
+                    if len(res.samples) < 5:
+                        res.samples.append({"site": q, "rounding": norm(c)[:70],
+                                            "verdict": "noise absorbed first" if absorbed else "remainder used (continuous)"})
+                    continue
+                res.findings.append(Finding(
+                    "R-HOURNOISE", f"{q} :: {f} of a converted duration",
+                    f"{q} takes `{norm(c)[:70]}`: the conversion (or the sum of converted terms) carries float noise, so a "
+                    f"duration that is a whole number of hours lands a hair above or below it and the {f.split('.')[-1]} "
+                    f"moves by one — 3 600 000 ms counts as 2 full hours where 1 hour counts as 1; six 10-minute steps add up "
+                    f"to 0.9999999999999999 h and the next job is placed one hour early", rel, c.lineno, q))
+    if scanned < 200:
+        raise AnalysisError(f"R-HOURNOISE scanned only {scanned} functions")
+    res.floor = 3
+    return res
